@@ -111,6 +111,7 @@ def _kfac_only_run(case, program, kw, with_mid_eval=True):
             if p.grad is not None:
                 p.grad /= (scale * accum)
         pre.step()
+        repr(pre)
         out.append({n: (None if p.grad is None else p.grad.detach().clone()) for n, p in model.named_parameters()})
         with torch.no_grad():
             for p in model.parameters():
@@ -287,6 +288,10 @@ class C10(Prop):
                 return passed(False, labels, {'note': str(e)[:200]})
             except Exception as e:  # noqa: BLE001
                 return violation(f'op {i}: step() raised {type(e).__name__}: {e}', 'exception', labels=labels)
+            # read-only looking operations right after the step (a user logging the object); they must not influence what follows
+            repr(pre)
+            for hp_name in ('factor_update_steps', 'inv_update_steps', 'damping', 'factor_decay', 'kl_clip', 'lr', 'steps'):
+                getattr(pre, hp_name)
             for n, p in model.named_parameters():
                 if not torch.equal(p.detach(), params0[n]):
                     return violation(f'op {i}: step() changed parameter {n}', 'parameter-changed', labels=labels)
